@@ -572,12 +572,12 @@ def wrepeat_sync(self, n, result):
 def normalize_x_entry(self, min_val, max_val):
     """two distinct abscissae exist in each series (strictly increasing, >= 2 points)"""
     return (self.x[0] < self.x[1] and self.reference_x[0] < self.reference_x[1] and self.original_x[0] < self.original_x[1]
-            and MINMAX_EXT(self.x, self.reference_x, len(self.x)))
+            and MINMAX_EXT_IMP(self.x, self.reference_x, len(self.x)))
 
 
 @hint(W + '.normalize_y', when='entry')
 def normalize_y_entry(self, min_val, max_val):
-    return MINMAX_EXT(self.y, self.reference_y, len(self.y))
+    return MINMAX_EXT_IMP(self.y, self.reference_y, len(self.y))
 
 
 # ------------------------------------------------------------------ run-time generators (bounded stand-in only)
